@@ -43,11 +43,12 @@ def shared_lines(code, globs):
 
 
 class ThreadExplorerRun:
-    def __init__(self, bodies, choose, files, bound):
+    def __init__(self, bodies, choose, files, bound, reduce=True):
         self.bodies = bodies
         self.choose = choose
         self.files = tuple(files)
         self.bound = bound
+        self.reduce = reduce
         self.n = len(bodies)
         self.sems = [threading.Semaphore(0) for _ in bodies]
         self.done = [False] * self.n
@@ -78,7 +79,7 @@ class ThreadExplorerRun:
         files = self.files
 
         def local(frame, event, arg):
-            if event == "line" and frame.f_lineno in shared_lines(frame.f_code, frame.f_globals):
+            if event == "line" and (not self.reduce or frame.f_lineno in shared_lines(frame.f_code, frame.f_globals)):
                 self._point(me)
             return local
 
